@@ -461,7 +461,9 @@ class Command:
         """
         if not self.has_arguments():
             return False
-        if self.iscomplete(atype, avalue):
+        if self.iscomplete(atype, avalue) and self.nextargpos >= len(
+            self.args_definition
+        ):
             return False
 
         if self.curarg is not None and "extra_arg" in self.curarg:
@@ -527,6 +529,9 @@ class Command:
 
             pos += 1
 
+        if pos >= len(self.args_definition):
+            # no slot left for this argument
+            return False
         if failed:
             raise BadArgument(self.name, avalue, self.args_definition[pos]["type"])
         return True
